@@ -2,6 +2,7 @@ import WS.Props.CIRCert.Lockset
 import WS.Props.CIRCert.Frames
 import WS.Props.CIRCert.Messages
 import WS.CIR.Util
+import WS.Props.C05Mu
 /-
   C05 — Concurrent use keeps frames atomic and messages unmixed.
   Statements about every reachable state of the connection skeleton `Gen.ConnCIR.prog` under the
